@@ -163,7 +163,7 @@ impl Sender {
                         }
                     }
                 } else {
-                    f.write(&mut head).map_err(|e| format!("head write: {:?}", e))?;
+                    crate::drive::redirect::write_head_until_ready(&mut f, &mut head).map_err(|e| format!("head write: {:?}", e))?;
                 }
                 match f.proceed().map_err(|e| format!("SendRequest::proceed: {:?}", e))? {
                     Some(SendRequestResult::SendBody(f)) => Ok(Sender::Flow(f)),
